@@ -349,6 +349,15 @@ func runOci(mode string, seed int64, tier string, sc *Script) map[string]any {
 				err := c.store.Tag(ctx, d, c.refString(ref))
 				sc.Op(ociErr(err), "o tag %d ann=%d ref=%s", n, ann, ref)
 				sc.Count("op:tag")
+				if err == nil && rng.Intn(4) == 0 {
+					// the same content under the same name again, with other annotations
+					ann2 := (ann + 1 + rng.Intn(2)) % 3
+					d2 := node.Desc
+					d2.Annotations = annOf(n, ann2)
+					err := c.store.Tag(ctx, d2, c.refString(ref))
+					sc.Op(ociErr(err), "o tag %d ann=%d ref=%s", n, ann2, ref)
+					sc.Count("op:retag-other-annotations")
+				}
 				// the same descriptor value under further names
 				for rng.Intn(3) == 0 {
 					ref2 := fmt.Sprintf("t%d", rng.Intn(4))
@@ -511,10 +520,25 @@ func runOci(mode string, seed int64, tier string, sc *Script) map[string]any {
 					sc.Count("op:gc-partial")
 					// fall through to an ordinary GC, which finishes the sweep
 				}
+				// stray files next to the blobs (an interrupted download, a README): not blobs, and
+				// no reason to leave garbage behind
+				var strays []string
+				if rng.Intn(2) == 0 {
+					for _, nm := range []string{".partial-download", "00-README.txt", "zz-notes"} {
+						p := filepath.Join(dir, "blobs", "sha256", nm)
+						if os.WriteFile(p, []byte("stray"), 0o644) == nil {
+							strays = append(strays, p)
+						}
+					}
+					sc.Count("op:gc-with-stray-files")
+				}
 				done := make(chan error, 1)
 				go func() { done <- c.store.GC(ctx) }()
 				select {
 				case err := <-done:
+					for _, p := range strays {
+						os.Remove(p)
+					}
 					sc.Op(ociErr(err), "o gc")
 				case <-time.After(5 * time.Second):
 					sc.Op("err:hang", "o gc")
